@@ -96,6 +96,7 @@ theorem vbiDec_enc (v : Nat) (rest : List Nat) (hv : v ≤ vbiMax) :
     simp only [e, Nat.lt_irrefl, if_false, gt_iff_lt, List.cons_append, List.nil_append, vbiDecAux, vbiMax, h1, if_true]
     have : v % 128 = v := by omega
     rw [if_neg (by omega), if_pos (by omega)]
+    rw [if_pos (by have hx : ∀ x, x = v → vbiSize x = 0 + 1 := (fun x e => by subst e; unfold vbiSize; rw [if_pos h1]); exact hx _ (by omega))]
     congr 1 <;> omega
   · by_cases h2 : v < 16384
     · have e1 : v / 128 > 0 := by omega
@@ -103,6 +104,7 @@ theorem vbiDec_enc (v : Nat) (rest : List Nat) (hv : v ≤ vbiMax) :
       simp only [e1, e2, Nat.lt_irrefl, if_true, if_false, gt_iff_lt, List.cons_append, List.nil_append, vbiDecAux, vbiMax,
         h1, h2]
       rw [if_neg (by omega), if_neg (by omega), if_neg (by omega), if_pos (by omega)]
+      rw [if_pos (by have hx : ∀ x, x = v → vbiSize x = 0 + 1 + 1 := (fun x e => by subst e; unfold vbiSize; rw [if_neg h1, if_pos h2]); exact hx _ (by omega))]
       congr 1 <;> omega
     · by_cases h3 : v < 2097152
       · have e1 : v / 128 > 0 := by omega
@@ -112,6 +114,7 @@ theorem vbiDec_enc (v : Nat) (rest : List Nat) (hv : v ≤ vbiMax) :
           vbiMax, h1, h2, h3]
         rw [if_neg (by omega), if_neg (by omega), if_neg (by omega), if_neg (by omega), if_neg (by omega),
           if_pos (by omega)]
+        rw [if_pos (by have hx : ∀ x, x = v → vbiSize x = 0 + 1 + 1 + 1 := (fun x e => by subst e; unfold vbiSize; rw [if_neg h1, if_neg h2, if_pos h3]); exact hx _ (by omega))]
         congr 1 <;> omega
       · have e1 : v / 128 > 0 := by omega
         have e2 : v / 128 / 128 > 0 := by omega
@@ -121,6 +124,7 @@ theorem vbiDec_enc (v : Nat) (rest : List Nat) (hv : v ≤ vbiMax) :
           vbiDecAux, vbiMax, h1, h2, h3]
         rw [if_neg (by omega), if_neg (by omega), if_neg (by omega), if_neg (by omega), if_neg (by omega),
           if_neg (by omega), if_neg (by omega), if_pos (by omega)]
+        rw [if_pos (by have hx : ∀ x, x = v → vbiSize x = 0 + 1 + 1 + 1 + 1 := (fun x e => by subst e; unfold vbiSize; rw [if_neg h1, if_neg h2, if_neg h3]); exact hx _ (by omega))]
         congr 1 <;> omega
 
 /-! ### MqttString / MqttBinary / SubEntry -/
